@@ -179,6 +179,7 @@ func (aw *AsyncWorker) dealWithGroupedContexts(resID string, phaseCtxs []phaseTw
 	if !ok {
 		for i := range phaseCtxs {
 			aw.rePutBackToQueue.Add(1)
+			verifRequeue()
 			aw.commitQueue <- phaseCtxs[i]
 		}
 		return
@@ -188,6 +189,7 @@ func (aw *AsyncWorker) dealWithGroupedContexts(resID string, phaseCtxs []phaseTw
 	conn, err := res.db.Conn(context.Background())
 	if err != nil {
 		for i := range phaseCtxs {
+			verifRequeue()
 			aw.commitQueue <- phaseCtxs[i]
 		}
 	}
@@ -198,6 +200,7 @@ func (aw *AsyncWorker) dealWithGroupedContexts(resID string, phaseCtxs []phaseTw
 	if err != nil {
 		for i := range phaseCtxs {
 			aw.rePutBackToQueue.Add(1)
+			verifRequeue()
 			aw.commitQueue <- phaseCtxs[i]
 		}
 		return
@@ -207,6 +210,7 @@ func (aw *AsyncWorker) dealWithGroupedContexts(resID string, phaseCtxs []phaseTw
 		phaseCtx := phaseCtxs[i]
 		if err := undoMgr.BatchDeleteUndoLog([]string{phaseCtx.Xid}, []int64{phaseCtx.BranchID}, conn); err != nil {
 			aw.rePutBackToQueue.Add(1)
+			verifRequeue()
 			aw.commitQueue <- phaseCtx
 		}
 	}
